@@ -192,6 +192,27 @@ pub struct Tz {
     t: u8,
 }
 
+#[derive(Debug)]
+pub struct VxTzError {
+    e: u8,
+}
+
+/// the names chrono-tz knows (its generated table; trusted)
+pub uninterp spec fn tz_valid(name: Seq<char>) -> bool;
+pub uninterp spec fn tz_of(name: Seq<char>) -> Tz;
+
+impl Tz {
+    /// <Tz as FromStr>::from_str (N11): a pure table lookup
+    #[verifier::external_body]
+    pub fn from_str(s: &str) -> (r: Result<Tz, VxTzError>)
+        ensures
+            r is Ok <==> tz_valid(s@),
+            r is Ok ==> r->Ok_0 == tz_of(s@),
+    {
+        unimplemented!()
+    }
+}
+
 #[verifier::external_body]
 #[verifier::reject_recursive_types(T)]
 pub struct DateTime<T> {
